@@ -1,3 +1,5 @@
+//go:build all || c01
+
 package props
 
 import (
